@@ -78,6 +78,11 @@ CHECKS = {
     category='translation_validation', design='4/C17',
     text="~450 expressions per quick run -> ~500 emitted contraction lines (programs), both backends, optimised and unoptimised schemes, limits, target strings with/without ',', bra-ket symmetry, (anti)symmetric result tensor, permutation operators applied as axis transpositions with the printed signs.",
     note="Trusted: the interpreter (~350 lines) and its reverse naming table; index strings tokenised letter+digits. Square-root prefactors are refused by the library under sympy >= 1.13 (NotImplementedError) and therefore only counted."),
+ 'C18': dict(
+    technique="runtime monitor: print -> import -> re-apply-assumptions round-trip checker (TM value on all target assignments, structural equality for operator strings, tensor class per name, re-printed text) on generated expressions and on outputs of real derivations",
+    category='exploration', design='4/C18',
+    text="~420 generated expanded expressions per quick run over every tensor kind the library produces, deltas, spin-labelled and numbered indices, orbital-energy fractions with powers (expanded denominators), rational/sqrt prefactors, operators and NO groups; 7 derivation pipelines (raw and after substitute_contracted).",
+    note="Plain sympy Symbols are not in the property's list and are not generated (greek names are LaTeX-translated by sympy's printer). Trusted: TM evaluator."),
 }
 
 NOT_YET = {}
